@@ -30,6 +30,9 @@ def gen_c01_sites():
                        r'if\s*\(\s*useTolerance\s*\)\s*variation\s*=\s*\(\s*val1\s*-\s*val0\s*\)\.cwiseAbs\(\)\.maxCoeff\(\)\s*;',
                        r'return\s+std::make_tuple\s*\(\s*useTolerance\s*\?\s*variation\s*:\s*0\.0'], rel)
     rows.append(('viLoopOrder', 'List String', '["init2tol", "useTolSmall", "while", "inc", "save", "discount", "computeQ", "bellman", "absmax", "ret"]', rel, ln[0]))
+    # warm start: does operator() size the actions vector of an accepted start to S? (fixes/C01-2)
+    m2 = re.search(r'v1_\s*=\s*vParameter_\s*;[^}]*?v1_\.actions\.resize\s*\(\s*S\s*\)\s*;', body)
+    rows.append(('viResizesActions', 'Bool', 'true' if m2 else 'false', rel, ln[0]))
     rel = 'include/AIToolbox/MDP/Algorithms/Utils/PolicyEvaluation.hpp'
     s = E.strip_comments(E.read(rel))
     body = s[s.index('PolicyEvaluation<M>::operator()'):]
@@ -58,6 +61,23 @@ def gen_c01_sites():
                r'ir\.col\(a\)\.noalias\(\)\s*\+=\s*model\.getTransitionFunction\(a\)\s*\*\s*v\s*;',
                r'ir\(s,\s*a\)\s*\+=\s*model\.getTransitionProbability\(s,a,s1\)\s*\*\s*v\[s1\]\s*;'], rel)
     rows.append(('computeQSites', 'List String', '["irGeneric", "qEigen", "qGeneric"]', rel, 1))
+    rel = 'include/AIToolbox/Bandit/Policies/Utils/QGreedyPolicyWrapper.hpp'
+    s = E.strip_comments(E.read(rel))
+    body = s[s.index('QGreedyPolicyWrapper<V, Gen>::getPolicy'):]
+    _order(body, [r'double\s+max\s*=\s*q_\[0\]\s*;\s*unsigned\s+count\s*=\s*1\s*;', r'for\s*\(\s*size_t\s+aa\s*=\s*1\s*;',
+                  r'if\s*\(\s*checkEqualGeneral\s*\(\s*val\s*,\s*max\s*\)\s*\)\s*\+\+count\s*;', r'else\s+if\s*\(\s*val\s*>\s*max\s*\)',
+                  r'max\s*=\s*val\s*;', r'count\s*=\s*1\s*;', r'for\s*\(\s*size_t\s+aa\s*=\s*0\s*;',
+                  r'if\s*\(\s*checkEqualGeneral\s*\(\s*q_\[aa\]\s*,\s*max\s*\)\s*\)', r'p\[aa\]\s*=\s*1\.0\s*/\s*count\s*;', r'p\[aa\]\s*=\s*0\.0\s*;'], rel)
+    rows.append(('greedySites', 'List String', '["init", "scanFrom1", "tieGeneral", "greater", "setMax", "reset", "fillFrom0", "tieGeneral2", "recip", "zero"]', rel, 1))
+    rel = 'include/AIToolbox/MDP/Algorithms/PolicyIteration.hpp'
+    s = E.strip_comments(E.read(rel))
+    body = s[s.index('PolicyIteration::operator()'):]
+    _order(body, [r'PolicyEvaluation<M>\s+eval\s*\(\s*m\s*,\s*horizon_\s*,\s*tolerance_\s*\)\s*;', r'QGreedyPolicy\s+p\s*\(\s*qfun\s*\)\s*;',
+                  r'auto\s+matrix\s*=\s*p\.getPolicy\(\)\s*;', r'nextLoop\s*:', r'auto\s*\[\s*bound\s*,\s*v\s*,\s*q\s*\]\s*=\s*eval\s*\(\s*p\s*\)\s*;',
+                  r'eval\.setValues\s*\(\s*std::move\(v\)\s*\)\s*;', r'qfun\s*=\s*std::move\(q\)\s*;', r'auto\s+newMatrix\s*=\s*p\.getPolicy\(\)\s*;',
+                  r'checkDifferentSmall\s*\(\s*matrix\(s,a\)\s*,\s*newMatrix\(s,a\)\s*\)', r'matrix\s*=\s*std::move\(newMatrix\)\s*;', r'goto\s+nextLoop\s*;',
+                  r'return\s+qfun\s*;'], rel)
+    rows.append(('piSites', 'List String', '["eval", "greedyOfQfun", "matrix0", "label", "evalP", "warm", "qfunGetsQ", "newMatrix", "diffSmall", "moveMatrix", "goto", "ret"]', rel, 1))
     out = ['/- GENERATED by tools/extract_c01.py from the library source — do not edit. -/', 'namespace AITB.Gen.C01', '']
     for nm, ty, val, rel, ln in rows:
         out.append(f'/-- {rel}:{ln} -/')
